@@ -54,7 +54,7 @@ type Op struct {
 	Mut string `json:"mut,omitempty"`
 	At  int    `json:"at,omitempty"`
 	Val uint64 `json:"val,omitempty"`
-	SOp   string `json:"sop,omitempty"` // put remove removeprefix get getprefix begin commit rollback
+	SOp   string `json:"sop,omitempty"` // put remove removeprefix get getprefix begin commit rollback bulk (SVer packets seg=0.. under SName, in one transaction)
 	SName string `json:"sname,omitempty"`
 	SVer  uint64 `json:"sver,omitempty"`
 }
@@ -139,6 +139,16 @@ func (Engine) Generate(prop string, r *kit.Rand, tier string) *kit.Scenario[Conf
 			}
 			sc.Ops = append(sc.Ops, o)
 		}
+	}
+	// a large object's worth of packets under one prefix, removed by prefix later (the stores' scans are long then)
+	if r.Chance(0.02) {
+		nb := kit.Pick(r, []int{998, 999, 1000, 1001, 1002, 1500, 2500})
+		sc.Ops = append(sc.Ops, Op{Op: "storeop", SOp: "bulk", SName: "/s/big/v=7", SVer: uint64(nb)},
+			Op{Op: "storeop", SOp: "get", SName: fmt.Sprintf("/s/big/v=7/seg=%d", nb-1)},
+			Op{Op: "storeop", SOp: "removeprefix", SName: kit.Pick(r, []string{"/s/big", "/s/big/v=7", "/s"})},
+			Op{Op: "storeop", SOp: "get", SName: fmt.Sprintf("/s/big/v=7/seg=%d", nb-1)},
+			Op{Op: "storeop", SOp: "get", SName: "/s/big/v=7/seg=998"},
+			Op{Op: "storeop", SOp: "getprefix", SName: "/s/big"})
 	}
 	// network faults for the fetch
 	mode := r.Weighted([]int{3, 5, 2})
@@ -936,6 +946,25 @@ func (e Engine) storeOp(ctx *kit.Ctx, o *Op, mem *object.MemoryStore, bolt *obje
 		return string(a), string(b)
 	}
 	switch o.SOp {
+	case "bulk":
+		if sm.inTx {
+			return
+		}
+		ctx.Probe("store/bulk-object")
+		mem.Begin()
+		bolt.Begin()
+		for i := 0; i < int(o.SVer); i++ {
+			n := fmt.Sprintf("%s/seg=%d", o.SName, i)
+			w := []byte("wire-of-" + n)
+			mem.Put(mkName(n), 7, w)
+			bolt.Put(mkName(n), 7, w)
+			ms[n] = struct {
+				ver  uint64
+				wire string
+			}{7, string(w)}
+		}
+		mem.Commit()
+		bolt.Commit()
 	case "begin":
 		if !sm.inTx {
 			mem.Begin()
